@@ -111,6 +111,14 @@ def instances(tier, seed):
             for when in ('before', 'after'):
                 add(spec=fam.with_horizon(sz, H[(N + M) % len(H)]), guesses=gset, when=when,
                     cfg=Cfg('DC', N=N, M=M, grid=grids[N % 4], degree=degree, scheme='radau'))
+    # several control symbols (one stacked decision vector per interval): the last interval keeps the guess of its own start time / column
+    for method, intg in (('DC', None), ('MS', 'rk'), ('SS', 'rk')):
+        N = 3
+        s2 = Spec(nx=2, nu=2, ode=[nl1(X(1)) * U(0) + t * X(0), X(0) - U(1) * X(1)])
+        s2.objective = [at_tf(X(0) * X(0)) + integral(U(0) * U(0) + U(1) * U(1))]
+        for gset in ([(U(0), t), (U(1), [[Fr(1 + k) for k in range(N + 1)]])], [(U(1), t * 2 + 1), (U(0), [[Fr(5 + k) for k in range(N)]])]):
+            for when in ('before', 'after'):
+                add(spec=fam.with_horizon(s2, H[1]), guesses=gset, when=when, cfg=Cfg(method, N=N, M=[1, 2][method == 'MS'], intg=intg or 'rk', grid=fam.G_UNI, degree=2, scheme='radau'))
     # vector-valued state: scalar guess (repeated), n x N and n x (N+1) arrays
     for method, intg in (('MS', 'rk'), ('DC', None), ('SS', 'rk')):
         for N, M in ((2, 2), (3, 1)):
